@@ -339,6 +339,7 @@ type World struct {
 	notes  map[string]int // abstraction rows hit
 	consts map[string]constContent
 	memo   map[string]memoEntry // lazily created initial contents, shared by all states of a run
+	initialContent bool          // creating the entry-state content of an object / a parameter (not a havoc)
 	ghostMutable []string        // mutable ghost fields (spec ghost)
 	ghostConst   map[string]bool // immutable ghost fields (spec ghostconst)
 }
@@ -523,6 +524,14 @@ func (w *World) fresh(s *State, t types.Type, name string, origin int) Val {
 			f[i] = w.freshReg(s, tt.At(i).Type(), fmt.Sprintf("%s.%d", name, i), origin)
 		}
 		return VTuple{F: f}
+	case *types.Map:
+		// a map that already existed (parameter, memory) was not made by this
+		// function; what a callee returns may be new
+		u := w.st.fresh(name, sortU)
+		if w.initialContent {
+			s.assume(mkNot(app(w.st.declare("alloc_here", []string{sortU}, sortBool), u)))
+		}
+		return VOpaque{T: u}
 	}
 	return VOpaque{T: w.st.fresh(name, sortU)}
 }
@@ -659,7 +668,11 @@ func (w *World) objVal(s *State, o *Obj) Val {
 	// every state in which the object has not been written or havocked, so that
 	// a state and its clones (pre-states of calls) agree on it.
 	key := fmt.Sprintf("obj%d", o.ID)
-	v := w.memoized(s, key, func(tmp *State) Val { return w.fresh(tmp, o.Typ, o.Name, OrigMem) })
+	v := w.memoized(s, key, func(tmp *State) Val {
+		w.initialContent = true
+		defer func() { w.initialContent = false }()
+		return w.fresh(tmp, o.Typ, o.Name, OrigMem)
+	})
 	s.mem[o] = v
 	return v
 }
